@@ -4,7 +4,11 @@ package common
 
 // Contracts for the hvc verifier (/verif). Comment-only.
 
+// C03: every complete 16-bit unit of the buffer is decoded (the loop only stops
+// when fewer than two bytes are left); a trailing half unit is ignored.
 //@ func DecodeUTF16(b []byte) (s string)
-//@   pure
+//@   ensures covered: i + 1 >= len(b) && i % 2 == 0
+//@   loop "for i := 0; i+1 < lb; i += 2"
+//@     invariant even: i % 2 == 0 && 0 <= i
 //@ func StripNull(s string) (r string)
 //@   pure
